@@ -64,6 +64,25 @@ type parseState struct {
 	isvar  bool
 	op     string
 	pieces [2][]varEvaler
+
+	// text collected for the current side and not yet turned into a piece:
+	// consecutive strings and separators are joined here once, not by
+	// rebuilding the piece for every token
+	text [2][]byte
+}
+
+func (st *parseState) addString(s string) {
+	st.text[st.st] = append(st.text[st.st], s...)
+}
+
+// flush turns the collected text into pieces.
+func (st *parseState) flush() {
+	for i := range st.text {
+		if len(st.text[i]) > 0 {
+			st.pieces[i] = append(st.pieces[i], constExp(string(st.text[i])))
+			st.text[i] = nil
+		}
+	}
 }
 
 var (
@@ -513,6 +532,7 @@ func parseVarExp(lex <-chan token, pathSep string, maxIdx int64, enableNumKeys, 
 			stack = append(stack, parseState{st: stLeft, isvar: true})
 		case tokClose:
 			// finalize and pop state
+			stack[len(stack)-1].flush()
 			piece, err := stack[len(stack)-1].finalize(pathSep, maxIdx, enableNumKeys, allowEscapePath)
 			stack = stack[:len(stack)-1]
 			if err != nil {
@@ -521,6 +541,7 @@ func parseVarExp(lex <-chan token, pathSep string, maxIdx int64, enableNumKeys, 
 
 			// append result top stacked state
 			st := &stack[len(stack)-1]
+			st.flush()
 			st.pieces[st.st] = append(st.pieces[st.st], piece)
 
 		case tokSep: // switch from left to right
@@ -529,7 +550,7 @@ func parseVarExp(lex <-chan token, pathSep string, maxIdx int64, enableNumKeys, 
 				return nil, errors.New("default separator not within expansion")
 			}
 			if st.st == stRight {
-				st.pieces[st.st] = addString(st.pieces[st.st], tok.val)
+				st.addString(tok.val)
 			} else {
 				// switch to 'right'
 				st.st = stRight
@@ -539,7 +560,7 @@ func parseVarExp(lex <-chan token, pathSep string, maxIdx int64, enableNumKeys, 
 		case tokString:
 			// append raw string
 			st := &stack[len(stack)-1]
-			st.pieces[st.st] = addString(st.pieces[st.st], tok.val)
+			st.addString(tok.val)
 		}
 	}
 
@@ -551,6 +572,7 @@ func parseVarExp(lex <-chan token, pathSep string, maxIdx int64, enableNumKeys, 
 		return nil, errors.New("fatal: expansion parse state empty")
 	}
 
+	stack[0].flush()
 	result := stack[0].pieces[stLeft]
 	if len(result) == 1 {
 		return result[0], nil
@@ -571,21 +593,6 @@ func cfgRoot(cfg *Config) *Config {
 
 		cfg = p
 	}
-}
-
-func addString(ps []varEvaler, s string) []varEvaler {
-	if len(ps) == 0 {
-		return []varEvaler{constExp(s)}
-	}
-
-	last := ps[len(ps)-1]
-	c, ok := last.(constExp)
-	if !ok {
-		return append(ps, constExp(s))
-	}
-
-	ps[len(ps)-1] = constExp(string(c) + s)
-	return ps
 }
 
 func (t tokenType) String() string {
